@@ -73,17 +73,19 @@ PROPS = {
                      "trace, final registers and memory (verification hook) and stdout must equal the model's run loop; L3 progs: random whole programs through "
                      "the real assembler (label/procedure indices, source map); non-trivial = more than one instruction executed / program accepted"
                      " L3 jumpspell + roles: grammar-independent oracles for the spelling tables and emission templates of the control-flow instructions."),
-    "C10": dict(modules=["Emu8086.Props.C10", "Emu8086.Props.C10Text", "Emu8086.Props.C12Text", "Emu8086.Props.C11Text", "Emu8086.Props.C11"], runs=[("l3", "shapes"), ("l3", "progs"), ("l4", "shapes"), ("l4", "diag"), ("l3", "jumpspell"), ("l3", "roles")], gen=["Arch", "ILiterals", "PPGrammar"],
+    "C10": dict(modules=["Emu8086.Props.C10", "Emu8086.Props.C10Text", "Emu8086.Props.C12Text", "Emu8086.Props.C11Text", "Emu8086.Props.ILexRT", "Emu8086.Props.C11Lines", "Emu8086.Props.C11"], runs=[("l3", "shapes"), ("l3", "progs"), ("l4", "shapes"), ("l4", "diag"), ("l3", "jumpspell"), ("l3", "roles"), ("l4", "prints")], gen=["Arch", "ILiterals", "PPGrammar"],
                 rule="shapes: EVERY code-emitting alternative of the CURRENT assembler grammar x every spelling of its mnemonic table x sampled operands "
                      "(generated from the grammar on each run); L3 = real Preprocessor vs model (byte-identical lines); L4 = the same programs executed by the real "
                      "binary: the real DataParser / Interpreter / PrintParser judge every emitted line (any 'Internal Error' is a violation); non-trivial = accepted program"
-                     " L4 diag: context mismatches (jump to a procedure name, call of a label, array fill values out of range ...) with verdict expectations; L3 jumpspell + roles."),
-    "C11": dict(modules=["Emu8086.Props.C11", "Emu8086.Props.C16Map", "Emu8086.Props.C11Text"], runs=[("l3", "spell"), ("l3", "shapes"), ("l3", "operands"), ("l3", "roles")], gen=["Arch", "ILiterals", "PPGrammar"],
+                     " L4 diag: context mismatches (jump to a procedure name, call of a label, array fill values out of range ...) with verdict expectations; L3 jumpspell + roles."
+                     " L4 prints: every accepted print statement executed by the real printer in states the program itself sets up (DS up to FFFFh, ranges ending at / beyond 2^20): an Internal Error is a violation."),
+    "C11": dict(modules=["Emu8086.Props.C11", "Emu8086.Props.C16Map", "Emu8086.Props.C11Text", "Emu8086.Props.ILexRT", "Emu8086.Props.C11Lines"], runs=[("l3", "spell"), ("l3", "shapes"), ("l3", "operands"), ("l3", "roles"), ("l3", "macroref", {"VERIF_ISOLATE": "1"})], gen=["Arch", "ILiterals", "PPGrammar"],
                 rule="spell: programs rendered from the grammar under two independent spelling choices (case of every keyword/register/mnemonic incl. synonyms, "
                      "radix / leading zeros / negative decimal with the same bit pattern / OFFSET of a label with that offset for every constant, amount and kind of "
                      "white space and line breaks): the real assembler must emit identical code and data lists for both (or refuse both with the same diagnostic) and "
                      "agree with the model; non-trivial = the two renderings differ textually"
-                     " L3 operands + roles: for every code-emitting alternative x every spelling of every table it uses, the emitted line read by the interpreter model must be the source instruction with the same operands in the same roles."),
+                     " L3 operands + roles: for every code-emitting alternative x every spelling of every table it uses, the emitted line read by the interpreter model must be the source instruction with the same operands in the same roles."
+                     " L3 macroref: operands that arrive through macro parameters keep their roles (macro program vs hand-expanded program)."),
     "C12": dict(modules=["Emu8086.Props.C12", "Emu8086.Props.C12Text"], runs=[("l3", "data"), ("l4", "data"), ("l4", "dataref"), ("l2", "mov+xfer")], gen=["Arch", "ILiterals", "PPGrammar"],
                 rule="random SET/DB/DW sequences of all four kinds (values over the full signed/unsigned ranges, arrays 0..65535 elements incl. segment overflow, "
                      "strings with every printable character, segments up to FFFFh so that data crosses the 1 MB wrap); L3: emitted data lines, label offsets, OFFSET "
@@ -251,7 +253,10 @@ def audit(pid, modules):
 def build_harness():
     rc, out = sh(["cargo", "build", "--offline"], cwd=HARNESS_DIR, timeout=3600)
     if rc != 0:
-        return False, out
+        # does /repo itself still compile?  then only the tie is broken (an interface the harness reads has changed)
+        rc2, out2 = sh(["cargo", "build", "--offline", "--manifest-path", os.path.join(REPO, "Cargo.toml"), "--target-dir", os.path.join(BUILD, "target-cli")],
+                       timeout=3600, env={"RUSTFLAGS": "--cfg yjdoc2_8086_emulator_verif"})
+        return ("tie" if rc2 == 0 else False), out
     # the real CLI binary, from /repo's working tree, verification hook enabled (MANIFEST.hooks)
     rc, out2 = sh(["cargo", "build", "--offline", "--manifest-path", os.path.join(REPO, "Cargo.toml"), "--target-dir", os.path.join(BUILD, "target-cli")],
                   timeout=3600, env={"RUSTFLAGS": "--cfg yjdoc2_8086_emulator_verif"})
@@ -454,6 +459,17 @@ def run_check(pid, tier, seed, replay):
 
     # 3. harness
     okh, hout = build_harness()
+    if okh == "tie":
+        # /repo compiles but the correspondence harness does not compile against it: the tie between model and
+        # code is broken and no input can be run -> the property is no longer shown to hold
+        errs = re.findall(r"^(error(?:\[E\d+\])?: .*(?:\n\s+--> .*)?)", hout, re.M)
+        path = write_replay(pid, "unproved", dict(property=pid, kind="property no longer shown to hold: the correspondence harness (harness/, the tie between model and implementation) "
+                            "no longer compiles against /repo although /repo itself compiles; no input could be run, no failing input found",
+                            broken_correspondence="cargo build of /verif/harness against /repo", compiler_errors=errs[:12], cargo_output_tail=hout[-3000:],
+                            broken_obligations=broken_obligations, seed=seed, tier=tier))
+        log(f"property={pid} tier={tier} correspondence harness does not compile against /repo (interface changed)")
+        log(f"VIOLATION property={pid} replay={path} no-failing-input-found")
+        return 1
     if not okh:
         log(f"CHECK-BROKEN property={pid} cannot build the harness against /repo (does /repo compile?):\n{hout[-2000:]}")
         return 2
